@@ -484,3 +484,105 @@ Example ex_minRRSetTTL :
   go_minRRSetTTL [I_RR_of_DS (mk_T_DS (h 600%N) 1 13 2 []); I_RR_of_NS (mk_T_NS (h 30%N) []); I_RR_other 99 (h 300%N)] = 30%N /\
   go_minRRSetTTL [] = 0%N /\ go_minRRSetTTL [I_RR_other 7 (h 0%N); I_RR_other 7 (h 5%N)] = 0%N.
 Proof. vm_compute. repeat split. Qed.
+
+(* ------------------------------------------------------------ Resolver.extractDelegationInfo, the loop
+
+   translated from the source on every run (loopfunc: range loop over resp.Ns with a type switch on dns.RR as a sum
+   type; flags nonnil_pointers - the loop is described from the state in which the first NS record has anchored the
+   RRset, `info.nsRecord == nil` reads false -, ascii_strings, map_fields): under the representation [di_rep] (anchor
+   owner and class, TTL, the two flags; the host set is carried along and not related) it runs the model's
+   [deleg_step] over the section *)
+Definition rr_kind (rr : I_RR) : rrk :=
+  match rr with
+  | I_RR_of_SOA _ => KSoa
+  | I_RR_of_NS v => KNs (T_RR_Header_Name (T_NS_Hdr v)) (T_RR_Header_Class (T_NS_Hdr v)) (T_RR_Header_Ttl (T_NS_Hdr v))
+  | _ => KOther
+  end.
+Definition di_rep (i : T_delegationInfo) (d : dinfo) : Prop :=
+  T_RR_Header_Name (T_NS_Hdr (T_delegationInfo_nsRecord i)) = di_owner d /\
+  T_RR_Header_Class (T_NS_Hdr (T_delegationInfo_nsRecord i)) = di_class d /\
+  T_delegationInfo_nsTTL i = di_ttl d /\ T_delegationInfo_hasSOA i = di_soa d /\ T_delegationInfo_incoherent i = di_incoh d.
+
+Lemma go_idx_mid : forall (pre : list I_RR) rr suf, go_idx I_RR_nil (pre ++ rr :: suf) (Z.of_nat (length pre)) = rr.
+Proof. intros. rewrite go_idx_nth by lia. rewrite Nat2Z.id. apply nth_middle. Qed.
+
+Lemma deleg_loop_suffix : forall suf pre lf resp i d, (length suf < lf)%nat -> di_rep i d ->
+  exists i', go_Resolver_extractDelegationInfo_loop1 (pre ++ suf) lf (Z.of_nat (length pre)) resp i = (GoNext, (resp, i')) /\
+             di_rep i' (fold_left deleg_step (map rr_kind suf) d).
+Proof.
+  induction suf as [|rr r IH]; intros pre lf resp i d Hlf Hrep; (destruct lf as [|lf]; [cbn in Hlf; lia|]);
+    cbn [go_Resolver_extractDelegationInfo_loop1].
+  - rewrite app_nil_r. unfold go_len. rewrite Z.ltb_irrefl. exists i. split; [reflexivity|exact Hrep].
+  - assert (Hlt : Z.of_nat (length pre) <? go_len (pre ++ rr :: r) = true).
+    { apply Z.ltb_lt. unfold go_len. rewrite app_length. cbn [length]. lia. }
+    rewrite Hlt, go_idx_mid. cbn [map fold_left].
+    assert (Hnext : forall i1 d1, di_rep i1 d1 ->
+      exists i', go_Resolver_extractDelegationInfo_loop1 (pre ++ rr :: r) lf (Z.of_nat (length pre) + 1) resp i1 = (GoNext, (resp, i')) /\
+                 di_rep i' (fold_left deleg_step (map rr_kind r) d1)).
+    { intros i1 d1 H1.
+      replace (pre ++ rr :: r) with ((pre ++ [rr]) ++ r) by (rewrite <- app_assoc; reflexivity).
+      replace (Z.of_nat (length pre) + 1) with (Z.of_nat (length (pre ++ [rr]))) by (rewrite app_length; cbn [length]; lia).
+      apply IH; [cbn [length] in Hlf; lia|exact H1]. }
+    destruct Hrep as (Ho & Hc & Ht & Hs & Hi).
+    destruct rr as [|v|v|v|tag hdr]; cbn [rr_kind deleg_step]; try (apply Hnext; repeat split; assumption).
+    unfold go_NS_Header. rewrite Ho, Hc.
+    destruct (negb (go_equal_fold_ascii (T_RR_Header_Name (T_NS_Hdr v)) (di_owner d)) ||
+                negb (T_RR_Header_Class (T_NS_Hdr v) =? di_class d)%N).
+    + apply Hnext. repeat split; cbn; assumption.
+    + rewrite Ht. destruct (T_RR_Header_Ttl (T_NS_Hdr v) <? di_ttl d)%N; apply Hnext; repeat split; cbn; assumption.
+Qed.
+
+Lemma gen_extract_delegation_loop : forall resp i d, di_rep i d ->
+  exists i', go_Resolver_extractDelegationInfo_loop1_run resp i = (GoNext, (resp, i')) /\
+             di_rep i' (fold_left deleg_step (map rr_kind (T_Msg_Ns resp)) d).
+Proof.
+  intros resp i d H. unfold go_Resolver_extractDelegationInfo_loop1_run.
+  exact (deleg_loop_suffix (T_Msg_Ns resp) [] (S (length (T_Msg_Ns resp))) resp i d (Nat.lt_succ_diag_r _) H).
+Qed.
+
+(* the model's fold: the anchor's owner and class never change, the TTL is the minimum over the anchor and every NS
+   record of the anchored owner and class, records of another owner / class only raise the flag *)
+Definition ns_coherent (d : dinfo) (k : rrk) : bool :=
+  match k with KNs o c _ => go_equal_fold_ascii o (di_owner d) && (c =? di_class d)%N | _ => false end.
+Lemma deleg_fold_shape : forall ks d,
+  let d' := fold_left deleg_step ks d in
+  di_owner d' = di_owner d /\ di_class d' = di_class d /\
+  di_ttl d' = fold_left N.min (flat_map (fun k => match k with KNs _ _ t => if ns_coherent d k then [t] else [] | _ => [] end) ks) (di_ttl d) /\
+  di_incoh d' = di_incoh d || existsb (fun k => match k with KNs _ _ _ => negb (ns_coherent d k) | _ => false end) ks /\
+  di_soa d' = di_soa d || existsb (fun k => match k with KSoa => true | _ => false end) ks.
+Proof.
+  induction ks as [|k r IH]; intros d; cbn [fold_left flat_map existsb].
+  - rewrite !orb_false_r. repeat split.
+  - specialize (IH (deleg_step d k)). cbn zeta in IH. destruct IH as (Ho & Hc & Ht & Hi & Hs).
+    assert (Eo : di_owner (deleg_step d k) = di_owner d /\ di_class (deleg_step d k) = di_class d).
+    { destruct k as [|o c t|]; cbn [deleg_step]; [split; reflexivity| |split; reflexivity].
+      destruct (negb (go_equal_fold_ascii o (di_owner d)) || negb (c =? di_class d)%N); split; reflexivity. }
+    destruct Eo as [Eo Ec].
+    assert (Ecoh : forall k', ns_coherent (deleg_step d k) k' = ns_coherent d k').
+    { intros [|o c t|]; cbn; try reflexivity. rewrite Eo, Ec. reflexivity. }
+    rewrite Ho, Hc, Ht, Hi, Hs. split; [exact Eo|]. split; [exact Ec|].
+    split; [|split].
+    + assert (EF : flat_map (fun k0 => match k0 with KNs _ _ t => if ns_coherent (deleg_step d k) k0 then [t] else [] | _ => [] end) r =
+                   flat_map (fun k0 => match k0 with KNs _ _ t => if ns_coherent d k0 then [t] else [] | _ => [] end) r).
+      { apply flat_map_ext. intros [|o c t|]; try reflexivity. rewrite Ecoh. reflexivity. }
+      rewrite EF.
+      destruct k as [|o c t|]; cbn [deleg_step di_ttl app ns_coherent]; try reflexivity.
+      destruct (go_equal_fold_ascii o (di_owner d)); destruct (c =? di_class d)%N; cbn; try reflexivity.
+      f_equal. destruct (N.ltb_spec t (di_ttl d)); lia.
+    + assert (EE : existsb (fun k0 => match k0 with KNs _ _ _ => negb (ns_coherent (deleg_step d k) k0) | _ => false end) r =
+                   existsb (fun k0 => match k0 with KNs _ _ _ => negb (ns_coherent d k0) | _ => false end) r).
+      { clear - Ecoh. induction r as [|x r' IHr]; [reflexivity|]. cbn [existsb]. rewrite IHr. f_equal.
+        destruct x as [|o c t|]; try reflexivity. rewrite Ecoh. reflexivity. }
+      rewrite EE.
+      destruct k as [|o c t|]; cbn [deleg_step di_incoh ns_coherent]; try (rewrite ?orb_false_r; reflexivity).
+      destruct (go_equal_fold_ascii o (di_owner d)); destruct (c =? di_class d)%N; cbn; rewrite ?orb_false_r, ?orb_true_r; reflexivity.
+    + destruct k as [|o c t|]; cbn [deleg_step di_soa existsb]; rewrite ?orb_false_r, ?orb_true_r; try reflexivity.
+      destruct (negb (go_equal_fold_ascii o (di_owner d)) || negb (c =? di_class d)%N); cbn; reflexivity.
+Qed.
+
+(* non-vacuity: an authority section SOA?, NS a (TTL 600), NS A (300, other case), NS b (5, another owner), NS a class 3 *)
+Example ex_deleg_fold :
+  let a := [97%N] in let ns o c t := KNs o c t in
+  let d := fold_left deleg_step [ns [65%N] 1%N 300%N; ns [98%N] 1%N 5%N; KSoa; ns a 3%N 1%N; KOther] (deleg_anchor false a 1 600) in
+  (di_ttl d, di_incoh d, di_soa d) = (300%N, true, true).
+Proof. vm_compute. reflexivity. Qed.
